@@ -268,6 +268,39 @@ pub trait World {
     fn rule(prop: &str, mode: &str) -> String;
 }
 
+/// The same world executed by the binary of the probe profile (sim/Cargo.toml): the library unoptimised, so that
+/// nothing is inlined or turned into a loop by the compiler and call depth is what the source says.  The lane's
+/// thread has the usual 8 MB stack: recursion that grows with the input ends as a child death (abort).
+#[macro_export]
+macro_rules! unoptimised_twin {
+    ($twin:ident, $base:ty, $name:literal) => {
+        pub struct $twin;
+        impl $crate::core::World for $twin {
+            type Case = <$base as $crate::core::World>::Case;
+            const NAME: &'static str = $name;
+            fn generate(rng: &mut $crate::prng::Rng, prop: &str, mode: &str, tier: $crate::core::Tier) -> Self::Case {
+                <$base as $crate::core::World>::generate(rng, prop, mode, tier)
+            }
+            fn execute(case: &Self::Case, ctx: &mut $crate::core::Ctx) {
+                ctx.probe("runs_with_unoptimised_library");
+                <$base as $crate::core::World>::execute(case, ctx)
+            }
+            fn shrink(case: &Self::Case) -> Vec<Self::Case> {
+                <$base as $crate::core::World>::shrink(case)
+            }
+            fn focus(case: &Self::Case, f: &$crate::core::Failure) -> Option<Self::Case> {
+                <$base as $crate::core::World>::focus(case, f)
+            }
+            fn components() -> $crate::core::Components {
+                <$base as $crate::core::World>::components()
+            }
+            fn rule(prop: &str, mode: &str) -> String {
+                format!("{} [library compiled unoptimised, 8 MB stack]", <$base as $crate::core::World>::rule(prop, mode))
+            }
+        }
+    };
+}
+
 /// One execution of `case` on the calling thread.
 fn exec_here<W: World>(case: &W::Case, prop: &str, mode: &str, tier: Tier, keep_log: bool, open: &std::sync::Arc<BTreeSet<String>>) -> Result<Ctx, String> {
     let mut ctx = Ctx::new(prop, mode, tier, keep_log, open.clone());
